@@ -9,8 +9,21 @@ package referenceserver
 // call of each stream type, sent by a plain net/http client.  Here the
 // "handler" is connect-go itself: it answers the recorder's "use raw response
 // instead" error with its own headers and body, none of which may be seen.
+//
+// Request-side faults (grid F): the raw response is prescribed by the FIRST
+// request message; what follows it on the request stream is an axis of its own
+// (c17sTails): nothing, well-formed messages, a message over the server's
+// message_receive_limit, the "compressed" flag without a declared encoding, the
+// end-stream flag, a payload that is no protobuf message, an envelope cut short
+// in its prefix / its payload, a declared length far beyond the limit with
+// nothing behind it, and - HTTP/1.1 only, spoken over a bare TCP connection - a
+// client that half-closes the connection in the middle of a chunk; each at the
+// second or third position and, where the stream can go on, followed by a good
+// message.  The property does not make the raw response conditional on the rest
+// of the request being readable: the oracle is the same in all of them.
 
 import (
+	"bufio"
 	"bytes"
 	"context"
 	"crypto/tls"
@@ -21,6 +34,7 @@ import (
 	"io"
 	"net"
 	"net/http"
+	"net/url"
 	"strconv"
 	"strings"
 	"testing"
@@ -36,11 +50,16 @@ import (
 )
 
 type c17sCase struct {
-	Proto      string          `json:"proto"`            // h1 | h2c | h2tls
-	StreamType string          `json:"stream_type"`      // unary | client | server | bidi
-	Origin     string          `json:"origin,omitempty"` // value of the Origin request header ("" = none): makes the CORS middleware set its Access-Control-* headers
+	Proto      string          `json:"proto"`                  // h1 | h2c | h2tls
+	StreamType string          `json:"stream_type"`            // unary | client | server | bidi
+	Origin     string          `json:"origin,omitempty"`       // value of the Origin request header ("" = none): makes the CORS middleware set its Access-Control-* headers
+	Tail       string          `json:"request_tail,omitempty"` // what follows the first request message (c17sTails); "" = the default of the stream type: one well-formed message (none for a server stream)
 	Raw        json.RawMessage `json:"raw"`
 }
+
+// c17sReceiveLimit is the message_receive_limit every server environment is
+// started with; no first message of the alphabet comes near it.
+const c17sReceiveLimit = 32 << 10
 
 type c17sServer struct {
 	name   string
@@ -61,7 +80,9 @@ func c17sStart(name string, version conformancev1.HTTPVersion, useTLS bool) (*c1
 	if err := codec.NewEncoder(&stdin).Encode(&conformancev1.ServerCompatRequest{
 		Protocol:    conformancev1.Protocol_PROTOCOL_CONNECT,
 		HttpVersion: version,
-		UseTls:      useTLS, // true: the server makes its own certificate and serves HTTP/2 with net/http's bundled implementation
+		// a receive limit, so that "a later request message is over the limit" is expressible
+		MessageReceiveLimit: c17sReceiveLimit,
+		UseTls:              useTLS, // true: the server makes its own certificate and serves HTTP/2 with net/http's bundled implementation
 	}); err != nil {
 		return nil, err
 	}
@@ -123,55 +144,216 @@ func (s *c17sServer) stop() {
 	}
 }
 
-func c17sEnvelope(msgs ...proto.Message) []byte {
-	var out []byte
-	for _, m := range msgs {
-		b, err := proto.Marshal(m)
-		if err != nil {
-			panic(err)
-		}
-		var prefix [5]byte
-		binary.BigEndian.PutUint32(prefix[1:], uint32(len(b)))
-		out = append(out, prefix[:]...)
-		out = append(out, b...)
+func c17sEnvelope(flags byte, payload []byte) []byte {
+	out := make([]byte, 5, 5+len(payload))
+	out[0] = flags
+	binary.BigEndian.PutUint32(out[1:], uint32(len(payload)))
+	return append(out, payload...)
+}
+
+func c17sMarshal(m proto.Message) []byte {
+	b, err := proto.Marshal(m)
+	if err != nil {
+		panic(err)
+	}
+	return b
+}
+
+// c17sLater: a later (non-first) request message of the stream type with the given data.
+func c17sLater(streamType string, data []byte) []byte {
+	switch streamType {
+	case "client":
+		return c17sMarshal(&conformancev1.ClientStreamRequest{RequestData: data})
+	case "server":
+		return c17sMarshal(&conformancev1.ServerStreamRequest{RequestData: data})
+	case "bidi":
+		return c17sMarshal(&conformancev1.BidiStreamRequest{RequestData: data})
+	}
+	panic("no later message for stream type " + streamType)
+}
+
+// Request tails: '+'-separated segments that follow the first request message.
+//
+//	ok          a well-formed message
+//	oversized   a well-formed message larger than the server's message_receive_limit
+//	zflag       a well-formed message whose envelope has the "compressed" flag although the request declares no encoding
+//	endflag     an envelope with the end-stream flag (0x02) - not something a request stream may carry
+//	garbage     an envelope whose payload is not a protobuf message
+//	cutprefix   the body ends after 3 of the 5 prefix bytes
+//	cutpayload  the body ends in the middle of the payload the prefix declares
+//	hugecut     the prefix declares 4,294,967,280 bytes; nothing follows
+//	halfclose   (HTTP/1.1 only, bare TCP, chunked) the client closes its sending side in the middle of a chunk,
+//	            i.e. in the middle of a message: an aborted upload whose response can still be read
+//
+// The last four end the request body.
+var (
+	c17sTailKinds    = []string{"oversized", "zflag", "endflag", "garbage"}
+	c17sTailEndKinds = []string{"cutprefix", "cutpayload", "hugecut", "halfclose"}
+)
+
+// c17sTails: the controls (nothing; two good messages) and every fault at the
+// second position, at the third position (after a good message) and - where
+// the stream can go on - followed by a good message.
+func c17sTails() []string {
+	out := []string{"none", "ok+ok"}
+	for _, k := range c17sTailKinds {
+		out = append(out, k, "ok+"+k, k+"+ok")
+	}
+	for _, k := range c17sTailEndKinds {
+		out = append(out, k, "ok+"+k)
 	}
 	return out
 }
 
-// c17sRequest builds the Connect-protocol request of the given stream type
-// whose first message prescribes the raw response.
-func c17sRequest(streamType string, raw *conformancev1.RawHTTPResponse) (path, contentType string, body []byte) {
-	switch streamType {
-	case "unary":
-		b, err := proto.Marshal(&conformancev1.UnaryRequest{
-			ResponseDefinition: &conformancev1.UnaryResponseDefinition{RawResponse: raw},
-			RequestData:        []byte("req-data"),
-		})
-		if err != nil {
-			panic(err)
+func c17sTailBytes(streamType, tail string) (out []byte, halfClose bool) {
+	okMsg := c17sLater(streamType, []byte("two"))
+	for _, seg := range strings.Split(tail, "+") {
+		switch seg {
+		case "none", "":
+		case "ok":
+			out = append(out, c17sEnvelope(0, okMsg)...)
+		case "oversized":
+			out = append(out, c17sEnvelope(0, c17sLater(streamType, bytes.Repeat([]byte{7}, c17sReceiveLimit+1024)))...)
+		case "zflag":
+			out = append(out, c17sEnvelope(1, okMsg)...)
+		case "endflag":
+			out = append(out, c17sEnvelope(2, []byte("{}"))...)
+		case "garbage":
+			out = append(out, c17sEnvelope(0, []byte{0xff, 0xff, 0xff})...)
+		case "cutprefix":
+			out = append(out, 0, 0, 0)
+		case "cutpayload":
+			e := c17sEnvelope(0, c17sLater(streamType, []byte("a message that is cut off")))
+			out = append(out, e[:5+(len(e)-5)/2]...)
+		case "hugecut":
+			out = append(out, 0, 0xff, 0xff, 0xff, 0xf0)
+		case "halfclose":
+			e := c17sEnvelope(0, c17sLater(streamType, []byte("an upload that is aborted")))
+			out = append(out, e[:5+(len(e)-5)/2]...)
+			halfClose = true
+		default:
+			panic("unknown request tail segment " + seg)
 		}
-		return conformancev1connect.ConformanceServiceUnaryProcedure, "application/proto", b
-	case "client":
-		return conformancev1connect.ConformanceServiceClientStreamProcedure, "application/connect+proto", c17sEnvelope(
-			&conformancev1.ClientStreamRequest{ResponseDefinition: &conformancev1.UnaryResponseDefinition{RawResponse: raw}, RequestData: []byte("one")},
-			&conformancev1.ClientStreamRequest{RequestData: []byte("two")},
-		)
-	case "server":
-		return conformancev1connect.ConformanceServiceServerStreamProcedure, "application/connect+proto", c17sEnvelope(
-			&conformancev1.ServerStreamRequest{ResponseDefinition: &conformancev1.StreamResponseDefinition{RawResponse: raw}, RequestData: []byte("one")},
-		)
-	case "bidi":
-		return conformancev1connect.ConformanceServiceBidiStreamProcedure, "application/connect+proto", c17sEnvelope(
-			&conformancev1.BidiStreamRequest{ResponseDefinition: &conformancev1.StreamResponseDefinition{RawResponse: raw}, RequestData: []byte("one")},
-			&conformancev1.BidiStreamRequest{RequestData: []byte("two")},
-		)
 	}
-	panic("unknown stream type " + streamType)
+	return out, halfClose
 }
 
-func c17sRun(srv *c17sServer, streamType, origin string, raw *conformancev1.RawHTTPResponse) c17rObs {
+// c17sTailApplies: does the tail exist for this environment / stream type?
+func c17sTailApplies(protoName, streamType, tail string) bool {
+	if tail == "" {
+		return true
+	}
+	if streamType == "unary" {
+		return false // a Connect unary request is one un-enveloped message
+	}
+	return !strings.Contains(tail, "halfclose") || protoName == "h1"
+}
+
+// c17sRequest builds the Connect-protocol request of the given stream type
+// whose first message prescribes the raw response.
+func c17sRequest(streamType, tail string, raw *conformancev1.RawHTTPResponse) (path, contentType string, body []byte, halfClose bool) {
+	var first []byte
+	switch streamType {
+	case "unary":
+		return conformancev1connect.ConformanceServiceUnaryProcedure, "application/proto", c17sMarshal(&conformancev1.UnaryRequest{
+			ResponseDefinition: &conformancev1.UnaryResponseDefinition{RawResponse: raw},
+			RequestData:        []byte("req-data"),
+		}), false
+	case "client":
+		path = conformancev1connect.ConformanceServiceClientStreamProcedure
+		first = c17sMarshal(&conformancev1.ClientStreamRequest{ResponseDefinition: &conformancev1.UnaryResponseDefinition{RawResponse: raw}, RequestData: []byte("one")})
+		if tail == "" {
+			tail = "ok"
+		}
+	case "server":
+		path = conformancev1connect.ConformanceServiceServerStreamProcedure
+		first = c17sMarshal(&conformancev1.ServerStreamRequest{ResponseDefinition: &conformancev1.StreamResponseDefinition{RawResponse: raw}, RequestData: []byte("one")})
+	case "bidi":
+		path = conformancev1connect.ConformanceServiceBidiStreamProcedure
+		first = c17sMarshal(&conformancev1.BidiStreamRequest{ResponseDefinition: &conformancev1.StreamResponseDefinition{RawResponse: raw}, RequestData: []byte("one")})
+		if tail == "" {
+			tail = "ok"
+		}
+	default:
+		panic("unknown stream type " + streamType)
+	}
+	rest, halfClose := c17sTailBytes(streamType, tail)
+	return path, "application/connect+proto", append(c17sEnvelope(0, first), rest...), halfClose
+}
+
+func c17sRequestHeaders(srv *c17sServer, streamType, origin, contentType string) http.Header {
+	h := http.Header{}
+	httpVersion := "1"
+	if srv.name != "h1" {
+		httpVersion = "2"
+	}
+	if origin != "" {
+		h.Set("Origin", origin)
+	}
+	h.Set("X-Expect-Tls", strconv.FormatBool(srv.name == "h2tls"))
+	h.Set("Content-Type", contentType)
+	h.Set("Connect-Protocol-Version", "1")
+	h.Set("X-Test-Case-Name", "c17/"+streamType)
+	h.Set("X-Expect-Http-Version", httpVersion)
+	h.Set("X-Expect-Http-Method", http.MethodPost)
+	h.Set("X-Expect-Protocol", "1")
+	h.Set("X-Expect-Codec", "1")
+	h.Set("X-Expect-Compression", "1")
+	return h
+}
+
+// c17sRunHalfClose speaks HTTP/1.1 over a bare TCP connection: request head,
+// the (incomplete) body as the beginning of one chunk whose declared size is
+// larger than what is sent, then the sending side is closed.  The response is
+// read from the still open receiving side with net/http's response parser.
+func c17sRunHalfClose(srv *c17sServer, path string, header http.Header, body []byte) (obs c17rObs) {
+	u, err := url.Parse(srv.url)
+	if err != nil {
+		obs.Err = "harness: " + err.Error()
+		return obs
+	}
+	conn, err := net.DialTimeout("tcp", u.Host, 10*time.Second)
+	if err != nil {
+		obs.Err = "dial: " + err.Error()
+		return obs
+	}
+	defer conn.Close()
+	_ = conn.SetDeadline(time.Now().Add(30 * time.Second)) // liveness guard only
+	var head bytes.Buffer
+	fmt.Fprintf(&head, "POST %s HTTP/1.1\r\nHost: %s\r\nTransfer-Encoding: chunked\r\n", path, u.Host)
+	_ = header.Write(&head)
+	fmt.Fprintf(&head, "\r\n%x\r\n", len(body)+64) // the chunk announces 64 bytes more than will ever come
+	head.Write(body)
+	if _, err := conn.Write(head.Bytes()); err != nil {
+		obs.Err = "write: " + err.Error()
+		return obs
+	}
+	if tcp, ok := conn.(*net.TCPConn); ok {
+		if err := tcp.CloseWrite(); err != nil {
+			obs.Err = "close write: " + err.Error()
+			return obs
+		}
+	}
+	resp, err := http.ReadResponse(bufio.NewReader(conn), &http.Request{Method: http.MethodPost})
+	if err != nil {
+		obs.Err = "read response: " + err.Error()
+		return obs
+	}
+	data, err := io.ReadAll(resp.Body)
+	_ = resp.Body.Close()
+	obs.Proto, obs.Status, obs.Header, obs.Trailer, obs.Body = resp.Proto, resp.StatusCode, resp.Header, resp.Trailer, data
+	if err != nil {
+		obs.Err = "read body: " + err.Error()
+	}
+	return obs
+}
+
+func c17sRun(srv *c17sServer, streamType, origin, tail string, raw *conformancev1.RawHTTPResponse) c17rObs {
 	var obs c17rObs
-	path, contentType, body := c17sRequest(streamType, raw)
+	path, contentType, body, halfClose := c17sRequest(streamType, tail, raw)
+	if halfClose {
+		return c17sRunHalfClose(srv, path, c17sRequestHeaders(srv, streamType, origin, contentType), body)
+	}
 	ctx, cancel := context.WithTimeout(context.Background(), 30*time.Second) // liveness guard only
 	defer cancel()
 	req, err := http.NewRequestWithContext(ctx, http.MethodPost, srv.url+path, bytes.NewReader(body))
@@ -179,22 +361,7 @@ func c17sRun(srv *c17sServer, streamType, origin string, raw *conformancev1.RawH
 		obs.Err = "new request: " + err.Error()
 		return obs
 	}
-	httpVersion := "1"
-	if srv.name != "h1" {
-		httpVersion = "2"
-	}
-	if origin != "" {
-		req.Header.Set("Origin", origin)
-	}
-	req.Header.Set("X-Expect-Tls", strconv.FormatBool(srv.name == "h2tls"))
-	req.Header.Set("Content-Type", contentType)
-	req.Header.Set("Connect-Protocol-Version", "1")
-	req.Header.Set("X-Test-Case-Name", "c17/"+streamType)
-	req.Header.Set("X-Expect-Http-Version", httpVersion)
-	req.Header.Set("X-Expect-Http-Method", http.MethodPost)
-	req.Header.Set("X-Expect-Protocol", "1")
-	req.Header.Set("X-Expect-Codec", "1")
-	req.Header.Set("X-Expect-Compression", "1")
+	req.Header = c17sRequestHeaders(srv, streamType, origin, contentType)
 	resp, err := srv.client.Do(req)
 	if err != nil {
 		obs.Err = "do: " + err.Error()
@@ -225,9 +392,26 @@ func c17sCORSOwned(name string) bool {
 	return false
 }
 
-func c17sJudge(protoName, origin string, raw *conformancev1.RawHTTPResponse, obs c17rObs) (out []c17rVerdict) {
+// c17sTailFaulty: does the tail contain anything but well-formed messages?
+func c17sTailFaulty(tail string) bool {
+	for _, seg := range strings.Split(tail, "+") {
+		if seg != "" && seg != "none" && seg != "ok" {
+			return true
+		}
+	}
+	return false
+}
+
+func c17sJudge(protoName, origin, tail string, raw *conformancev1.RawHTTPResponse, obs c17rObs) (out []c17rVerdict) {
 	h2 := protoName != "h1"
+	faulty := c17sTailFaulty(tail)
 	add := func(key, format string, a ...any) {
+		if faulty {
+			// the same demand, in the situation "a request message after the one that
+			// prescribes the raw response cannot be received"
+			key = "reference-server:after-request-fault:" + strings.TrimPrefix(key, "reference-server:")
+			format = "[request tail " + tail + ": a later request message cannot be received] " + format
+		}
 		out = append(out, c17rVerdict{key, fmt.Sprintf(format, a...)})
 	}
 	if obs.Err != "" {
@@ -333,7 +517,10 @@ var (
 	c17sOrigins     = []string{"", "https://c17-browser.example"}
 )
 
-func c17sEnumerate(thorough bool, visit func(grid, proto, streamType, origin string, raw *conformancev1.RawHTTPResponse) bool) {
+func c17sEnumerate(thorough bool, visit0 func(grid, proto, streamType, origin, tail string, raw *conformancev1.RawHTTPResponse) bool) {
+	visit := func(grid, proto, streamType, origin string, raw *conformancev1.RawHTTPResponse) bool {
+		return visit0(grid, proto, streamType, origin, "", raw)
+	}
 	// grid E: status/header/trailer combinations x medium body set
 	envs := c17rEnvs(false, 1)
 	if thorough {
@@ -384,6 +571,29 @@ func c17sEnumerate(thorough bool, visit func(grid, proto, streamType, origin str
 			}
 		}
 	}
+	// grid F: request-side faults behind the message that prescribes the raw response
+	// x the streaming procedures x raw definitions
+	fEnvs, fBodies := c17rEnvs(false, 0), c17lib.Bodies(0)
+	if thorough {
+		fEnvs, fBodies = c17rEnvs(false, 1), append(c17lib.Bodies(0), c17lib.Bodies(1)[8:20]...)
+	}
+	for _, tail := range c17sTails() {
+		for _, e := range fEnvs {
+			for _, b := range fBodies {
+				raw := c17rMake(e, b)
+				for _, st := range c17sStreamTypes {
+					for _, p := range c17sProtos {
+						if !c17sTailApplies(p, st, tail) {
+							continue
+						}
+						if !visit0("F", p, st, "", tail, raw) {
+							return
+						}
+					}
+				}
+			}
+		}
+	}
 	// grid B (thorough): the full body alphabet with one rich environment
 	if thorough {
 		e := c17rEnv{404, c17lib.HeaderLists(0)[2], c17lib.TrailerLists(0)[1]}
@@ -403,7 +613,7 @@ func c17sEnumerate(thorough bool, visit func(grid, proto, streamType, origin str
 func TestVerifC17ReferenceServer(t *testing.T) {
 	r := rep.New("c17-refserver")
 	defer r.Write()
-	r.Rule = "case = (server environment h1 | h2c (x/net h2c server) | h2tls (net/http's bundled HTTP/2 server, own certificate), each the complete chain of createServer: CORS -> rawResponder -> request checks -> connect-go) x (stream type unary|client|server|bidi half-duplex, Connect protocol, proto codec) x (Origin request header absent|present) x RawHTTPResponse carried in response_definition.raw_response of the first request message; grid E = status/header/trailer combinations (17 quick incl. 204 and 304 with trailers, 150 thorough; incl. header and trailer lists that name the same header / trailer in two entries) x medium body set, grid M = header lists (and trailer lists) that name what the CORS middleware sets itself before rawResponder runs (Vary, Access-Control-Allow-Origin / -Expose-Headers / -Allow-Credentials; other case spellings; one entry, two entries) x with/without Origin: every given value must be on the wire in list order, the middleware's own values are tolerated for those four names only; grid B (thorough) = full body alphabet x one status/header/trailer combination; status 204/304 over HTTP/2: status, headers and trailers demanded (the body is refused by the server's ResponseWriter); distinct (environment, stream type, origin, definition) = non-trivial; oracle as in unit c17-rawresp with connect-go's own response (Server/Accept-Encoding/Content-Type headers, 'use raw response instead' error body) as the handler output that must not appear"
+	r.Rule = "case = (server environment h1 | h2c (x/net h2c server) | h2tls (net/http's bundled HTTP/2 server, own certificate), each the complete chain of createServer: CORS -> rawResponder -> request checks -> connect-go) x (stream type unary|client|server|bidi half-duplex, Connect protocol, proto codec) x (Origin request header absent|present) x RawHTTPResponse carried in response_definition.raw_response of the first request message; grid E = status/header/trailer combinations (17 quick incl. 204 and 304 with trailers, 150 thorough; incl. header and trailer lists that name the same header / trailer in two entries) x medium body set, grid M = header lists (and trailer lists) that name what the CORS middleware sets itself before rawResponder runs (Vary, Access-Control-Allow-Origin / -Expose-Headers / -Allow-Credentials; other case spellings; one entry, two entries) x with/without Origin: every given value must be on the wire in list order, the middleware's own values are tolerated for those four names only; grid F (request-side faults) = what follows the first request message on the request stream of a client / server / bidi procedure {nothing, two good messages; at the 2nd or 3rd position and (where the stream can go on) followed by a good message: a message over the server's message_receive_limit (32 KiB, all environments), the compressed flag without a declared encoding, the end-stream flag, a payload that is no protobuf message, the body ending inside the envelope prefix / inside the declared payload / after a prefix that declares 4 GiB, and (HTTP/1.1, bare TCP) the client closing its sending side in the middle of a chunk} x 7 status/header/trailer combinations x 7 bodies (thorough 17 x 19): the raw response must go out exactly as given whatever becomes of the rest of the request; grid B (thorough) = full body alphabet x one status/header/trailer combination; status 204/304 over HTTP/2: status, headers and trailers demanded (the body is refused by the server's ResponseWriter); distinct (environment, stream type, origin, request tail, definition) = non-trivial; oracle as in unit c17-rawresp with connect-go's own response (Server/Accept-Encoding/Content-Type headers, 'use raw response instead' error body) as the handler output that must not appear"
 
 	servers := map[string]*c17sServer{}
 	{
@@ -445,16 +655,19 @@ func TestVerifC17ReferenceServer(t *testing.T) {
 		}
 	}()
 
-	evalOne := func(protoName, streamType, origin string, raw *conformancev1.RawHTTPResponse, verbose bool) []c17rVerdict {
+	evalOne := func(protoName, streamType, origin, tail string, raw *conformancev1.RawHTTPResponse, verbose bool) []c17rVerdict {
 		srv := servers[protoName]
 		if srv == nil {
 			return []c17rVerdict{{"reference-server:transport-error", "no such server environment: " + protoName}}
 		}
-		obs := c17sRun(srv, streamType, origin, raw)
-		verdicts := c17sJudge(protoName, origin, raw, obs)
+		if !c17sTailApplies(protoName, streamType, tail) {
+			return []c17rVerdict{{"reference-server:transport-error", "request tail " + tail + " does not exist for " + protoName + "/" + streamType}}
+		}
+		obs := c17sRun(srv, streamType, origin, tail, raw)
+		verdicts := c17sJudge(protoName, origin, tail, raw, obs)
 		if len(verdicts) > 0 {
 			srv.client.CloseIdleConnections()
-			again := c17sJudge(protoName, origin, raw, c17sRun(srv, streamType, origin, raw))
+			again := c17sJudge(protoName, origin, tail, raw, c17sRun(srv, streamType, origin, tail, raw))
 			keys := map[string]bool{}
 			for _, v := range again {
 				keys[v.key] = true
@@ -464,7 +677,7 @@ func TestVerifC17ReferenceServer(t *testing.T) {
 				if keys[v.key] {
 					kept = append(kept, v)
 				} else {
-					r.Note("UNSTABLE verdict %s on proto=%s stream=%s origin=%q raw=%s: %s", v.key, protoName, streamType, origin, c17lib.Short(raw), v.detail)
+					r.Note("UNSTABLE verdict %s on proto=%s stream=%s origin=%q tail=%q raw=%s: %s", v.key, protoName, streamType, origin, tail, c17lib.Short(raw), v.detail)
 					r.Count("unstable", 1)
 				}
 			}
@@ -484,12 +697,15 @@ func TestVerifC17ReferenceServer(t *testing.T) {
 		if origin != "" {
 			cls += "/with-origin"
 		}
+		if tail != "" {
+			cls = fmt.Sprintf("%s/request-tail:%s", obs.Proto, tail)
+		}
 		if obs.Err != "" {
 			cls = protoName + "/" + streamType + "/transport-error"
 		}
 		r.Outcome(cls)
 		if verbose {
-			fmt.Printf("replay: proto=%s stream=%s origin=%q raw=%s\nobserved: %+v\nbody=%x\nverdicts=%v\n", protoName, streamType, origin, c17lib.JSON(raw), obs, obs.Body, verdicts)
+			fmt.Printf("replay: proto=%s stream=%s origin=%q request-tail=%q raw=%s\nobserved: %+v\nbody=%x\nverdicts=%v\n", protoName, streamType, origin, tail, c17lib.JSON(raw), obs, obs.Body, verdicts)
 		}
 		return verdicts
 	}
@@ -509,7 +725,7 @@ func TestVerifC17ReferenceServer(t *testing.T) {
 		r.NonTrivial("")
 		r.NonTrivial("")
 		r.Sample(rj.Replay)
-		for _, v := range evalOne(rj.Replay.Proto, rj.Replay.StreamType, rj.Replay.Origin, raw, true) {
+		for _, v := range evalOne(rj.Replay.Proto, rj.Replay.StreamType, rj.Replay.Origin, rj.Replay.Tail, raw, true) {
 			r.Violate(v.key, v.detail, rj.Replay)
 		}
 		return
@@ -517,7 +733,7 @@ func TestVerifC17ReferenceServer(t *testing.T) {
 
 	deadline := rep.Deadline()
 	var k int64
-	c17sEnumerate(rep.Thorough(), func(grid, protoName, streamType, origin string, raw *conformancev1.RawHTTPResponse) bool {
+	c17sEnumerate(rep.Thorough(), func(grid, protoName, streamType, origin, tail string, raw *conformancev1.RawHTTPResponse) bool {
 		k++
 		if !r.Mine(k) {
 			return true
@@ -526,16 +742,19 @@ func TestVerifC17ReferenceServer(t *testing.T) {
 			r.NotExhaustive("budget reached in grid " + grid + " before the enumeration was complete")
 			return false
 		}
-		verdicts := evalOne(protoName, streamType, origin, raw, false)
+		verdicts := evalOne(protoName, streamType, origin, tail, raw, false)
 		r.Eval(1)
 		r.Count("grid:"+grid, 1)
-		c := c17sCase{Proto: protoName, StreamType: streamType, Origin: origin, Raw: c17lib.JSON(raw)}
-		r.NonTrivial(strings.Join([]string{protoName, streamType, origin, string(c.Raw)}, "|"))
+		c := c17sCase{Proto: protoName, StreamType: streamType, Origin: origin, Tail: tail, Raw: c17lib.JSON(raw)}
+		r.NonTrivial(strings.Join([]string{protoName, streamType, origin, tail, string(c.Raw)}, "|"))
 		if k%503 == 1 {
 			r.Sample(c)
 		}
+		if tail != "" && len(verdicts) > 0 {
+			r.Count("cases-with-verdicts:request-tail:"+tail, 1)
+		}
 		for _, v := range verdicts {
-			r.Violate(v.key, fmt.Sprintf("proto=%s stream-type=%s request-origin=%q raw=%s: %s", protoName, streamType, origin, c17lib.Short(raw), v.detail), c)
+			r.Violate(v.key, fmt.Sprintf("proto=%s stream-type=%s request-origin=%q request-tail=%q raw=%s: %s", protoName, streamType, origin, tail, c17lib.Short(raw), v.detail), c)
 		}
 		return true
 	})
